@@ -112,6 +112,9 @@ def scenarios(tier):
     S.append(mk("initial-one-listener-bfs", no_listen={1: True}, max_depth=80, max_states=600000))
     S.append(mk("initial-other-listener-bfs", no_listen={0: True}, max_depth=80, max_states=600000))
     S.append(mk("initial-two-candidates-bfs", max_depth=120, max_states=600000 if q else 4000000))
+    # the Connector's sets (pending connectors / connections, contenders) iterated in reverse insertion order
+    S.append(mk("initial-two-candidates-revsets-bfs", set_order="rev", max_depth=120, max_states=600000 if q else 4000000))
+    S.append(mk("reconverge-lose2-two-candidates-revsets-dev", set_order="rev", lose=2, dev_bound=3 if q else 4, max_depth=240))
     # loss of the connection in use, noticed by either side first, re-convergence
     S.append(mk("reconverge-lose1-one-listener-bfs", no_listen={1: True}, lose=1, max_depth=160, max_states=600000 if q else 4000000))
     S.append(mk("reconverge-lose2-one-listener-dev", no_listen={1: True}, lose=2, dev_bound=4 if q else 5, max_depth=200))
